@@ -269,4 +269,5 @@ ENTRY_PARAMS = {
 # Entries that are not re-run under the other solvers in the thorough tier (hundreds of thousands of paths each; the
 # cross-solver agreement is sampled on every other entry, which exercise the same encodings)
 NO_CROSSCHECK = {"H_C05_history_vs_model", "H_C05_RegisterPipeline", "H_C06_RegisterPipeline", "H_C07_pipeline_other_type",
-                 "H_C11_history_vs_model", "H_C16_history_vs_model", "H_C08_history", "H_C20_Reopen", "H_C09_nested", "H_C09_struct"}
+                 "H_C11_history_vs_model", "H_C16_history_vs_model", "H_C08_history", "H_C20_Reopen", "H_C09_nested", "H_C09_struct",
+                 "H_C02_thresholds_preserved", "H_C01_process_seq", "H_C06_RemovePipelineAndNodes", "H_C06_RemovePipeline", "H_C11_concurrent"}
